@@ -4,7 +4,9 @@ package main
 
 import (
 	"bytes"
+	crand "crypto/rand"
 	"encoding/json"
+	"errors"
 	"fmt"
 	"math/rand"
 
@@ -16,6 +18,109 @@ import (
 	"github.com/ucan-wg/go-ucan/token/delegation"
 	"github.com/ucan-wg/go-ucan/token/invocation"
 )
+
+// starvedEntropy yields n bytes, then fails (a broken /dev/urandom, a blocked getrandom, a replaced rand.Reader).
+type starvedEntropy struct{ n int }
+
+func (e *starvedEntropy) Read(p []byte) (int, error) {
+	if e.n <= 0 {
+		return 0, errors.New("entropy source failed")
+	}
+	k := len(p)
+	if k > e.n {
+		k = e.n
+	}
+	for i := 0; i < k; i++ {
+		p[i] = 0xa5
+	}
+	e.n -= k
+	return k, nil
+}
+
+// entropyFailure: "two encryptions of the same value differ" needs fresh randomness for each; when the source
+// cannot deliver it, encrypting is refused - never done with a constant (part of the) nonce.
+func entropyFailure(rep *Report, key []byte) {
+	old := crand.Reader
+	defer func() { crand.Reader = old }()
+	for _, avail := range []int{0, 8, 23} {
+		cs := map[string]any{"entropy_bytes_available": avail}
+		rep.Evaluations++
+		m := meta.NewMeta()
+		crand.Reader = &starvedEntropy{n: avail}
+		e1 := m.AddEncrypted("a", "the same secret value", key)
+		crand.Reader = &starvedEntropy{n: avail}
+		e2 := m.AddEncrypted("b", "the same secret value", key)
+		crand.Reader = old
+		if e1 != nil || e2 != nil {
+			continue // refused: fine
+		}
+		c1, _ := m.GetBytes("a")
+		c2, _ := m.GetBytes("b")
+		if bytes.Equal(c1, c2) {
+			rep.violation(cs, "an error, or two different ciphertexts", "two identical ciphertexts",
+				"the entropy source failed while the nonce was drawn: the value was encrypted all the same, twice with the same nonce")
+		}
+	}
+}
+
+// longValueTampering: a long value (40 KiB + 5) is authenticated as a whole - EVERY truncation of its stored
+// ciphertext (at the tail and at the head), and the block-wise modifications a chunked format would invite (a block
+// dropped, two blocks swapped, a block repeated, for a range of plausible block sizes) are refused.
+func longValueTampering(rep *Report, key []byte) {
+	pt := make([]byte, 40*1024+5)
+	for i := range pt {
+		pt[i] = byte(i*7 + i/251)
+	}
+	m := meta.NewMeta()
+	if err := m.AddEncrypted("big", pt, key); err != nil {
+		rep.violation(map[string]any{"plaintext_bytes": len(pt)}, "stored", err.Error(), "a long value cannot be added encrypted")
+		return
+	}
+	ct, err := m.GetBytes("big")
+	if err != nil {
+		return
+	}
+	if got, err := m.GetEncryptedBytes("big", key); err != nil || !bytes.Equal(got, pt) {
+		rep.violation(map[string]any{"plaintext_bytes": len(pt)}, "the value unchanged", fmt.Sprint(err), "a long value does not come back")
+		return
+	}
+	try := func(what string, mod []byte) bool {
+		rep.Evaluations++
+		m2 := meta.NewMeta()
+		if err := m2.Add("big", mod); err != nil {
+			return true
+		}
+		got, err := m2.GetEncryptedBytes("big", key)
+		if err == nil {
+			rep.violation(map[string]any{"plaintext_bytes": len(pt), "ciphertext_bytes": len(ct), "modification": what}, "an error",
+				fmt.Sprintf("%d bytes of data", len(got)), "a modified ciphertext of a long value was accepted")
+			return false
+		}
+		return true
+	}
+	for n := 0; n < len(ct); n++ {
+		if !try(fmt.Sprintf("cut down to its first %d bytes", n), ct[:n]) {
+			break
+		}
+	}
+	for n := 1; n < len(ct); n += 1 + n/64 {
+		if !try(fmt.Sprintf("its first %d bytes dropped", n), ct[n:]) {
+			break
+		}
+	}
+	for _, b := range []int{16424, 16400, 16384, 16408, 8232, 4136, 4096, 1064, 1024, 65576} {
+		if 2*b > len(ct) {
+			continue
+		}
+		swapped := append(append(append([]byte{}, ct[b:2*b]...), ct[:b]...), ct[2*b:]...)
+		repeated := append(append(append([]byte{}, ct[:b]...), ct[:b]...), ct[b:]...)
+		dropped := append(append([]byte{}, ct[:b]...), ct[2*b:]...)
+		if !try(fmt.Sprintf("the first two blocks of %d bytes swapped", b), swapped) || !try(fmt.Sprintf("the first block of %d bytes repeated", b), repeated) ||
+			!try(fmt.Sprintf("the second block of %d bytes dropped", b), dropped) {
+			break
+		}
+	}
+}
 
 type metaCase struct {
 	Carrier string `json:"carrier"`
@@ -388,6 +493,8 @@ func init() {
 				rep.violation(json.RawMessage(raw), "an error", fmt.Sprintf("%d bytes returned", len(got)), "data returned for a wrong key or a modified ciphertext")
 			}
 		}
+		entropyFailure(rep, good["good1"])
+		longValueTampering(rep, good["good1"])
 		return nil
 	}
 
